@@ -729,7 +729,8 @@ def run_check(pid, tier, seed, replay, log, t0):
     coqchk_note = None
     if tier == 'thorough' and not ob['failed']:
         try:
-            rc, out = sh(['coqchk', '-silent', '-o'] + COQ_FLAGS + ['OtpV.' + pid], cwd=COQ, timeout=3000)
+            mods = ['OtpV.' + pid] + (['OtpV.' + pid + suf for suf in srcfiles] if src_tie and not src_tie['failed'] else [])
+            rc, out = sh(['coqchk', '-silent', '-o'] + COQ_FLAGS + mods, cwd=COQ, timeout=3000)
             m = re.search(r'\* Axioms:\s*(.*?)\n\s*\n', out, re.S)
             coqchk_note = 'coqchk: ' + ('axioms ' + ' '.join(m.group(1).split()) if m else 'no summary') + (' (exit %d)' % rc if rc else '')
             if rc:
